@@ -97,6 +97,25 @@ func gen(seed int64, n int, tier string) []interface{} {
 				break
 			}
 		}
+		// a superclass of the same package (no import needed) next to an import whose simple name merely ENDS with the
+		// superclass name (extends Repo + import ext.lib.AbstractRepo): the import is not the superclass
+		if r.Intn(5) == 0 {
+		findSuper:
+			for i := range p.Files {
+				f := &p.Files[i]
+				if !selected(*f) || f.Unit.Kind != "class" || f.Unit.Ext != "" {
+					continue
+				}
+				for _, b := range p.Files {
+					if selected(b) && b.Unit.Kind == "class" && b.Pkg == f.Pkg && b.Unit.Name != f.Unit.Name {
+						f.Unit.Ext = b.Unit.Name
+						f.Unit.Extq = f.Pkg + "." + b.Unit.Name
+						f.Imports = append(f.Imports, javagen.Import{Pkg: "ext.lib", Name: "Abstract" + b.Unit.Name})
+						break findSuper
+					}
+				}
+			}
+		}
 		// a second module: another compilation unit of the tree declares the same package and type name (a copied or
 		// generated module) with other members; both are declared types of the tree
 		if k%4 != 3 && r.Intn(6) == 0 {
